@@ -5,7 +5,7 @@ from concurrent.futures import ThreadPoolExecutor
 ROOT = os.path.dirname(os.path.dirname(os.path.abspath(__file__)))
 COQ = os.path.join(ROOT, 'coq')
 QFLAGS = ['-Q', 'theories', 'QSC', '-Q', 'gen', 'QSCGen', '-Q', 'gprops', 'QSCGProps', '-Q', 'props', 'QSCProps']
-THEORIES = ['Expr', 'FloatEval', 'Equiv', 'Dim', 'Sign', 'Shift', 'Replicate', 'Shallow', 'Pipeline', 'Series', 'DiffMat', 'Quadrant', 'Newton', 'Bracket', 'RootSelect', 'ObjModel', 'Effects', 'TrigSum', 'VmecEmit', 'DiffKernel', 'InterpKernel', 'EvenKernel', 'Winding', 'FloatOrder', 'NewtonConv', 'SpectralConv']
+THEORIES = ['Expr', 'FloatEval', 'Equiv', 'Dim', 'Sign', 'Shift', 'Replicate', 'Shallow', 'Pipeline', 'Series', 'DiffMat', 'Quadrant', 'Newton', 'Bracket', 'RootSelect', 'ObjModel', 'Effects', 'TrigSum', 'VmecEmit', 'DiffKernel', 'InterpKernel', 'EvenKernel', 'Winding', 'FloatOrder', 'NewtonConv', 'SpectralConv', 'SecondOrder']
 FORBIDDEN = re.compile(r'\b(Admitted|admit|Axiom|Axioms|Parameter|Parameters|Conjecture|Hypothesis\s|Variable\s)|Unset\s+Guard|bypass_check|type-in-type|impredicative-set|Admit\s+Obligations')
 ALLOWED_AXIOMS = {
     'ClassicalDedekindReals.sig_not_dec', 'ClassicalDedekindReals.sig_forall_dec',
